@@ -14,7 +14,7 @@ I = z3.Int
 BOUNDS = {"quick": [dict(what="saver", K=3, pre=2, to=1), dict(what="joiner", K=3, pre=1, to=1), dict(what="joiner", K=3, pre=1, to=1, sil0=True),
                     dict(what="regions", K=3, pre=1, to=1), dict(what="saver-late", K=2, pre=1, to=1), dict(what="saver-overlap", K=3, pre=1, to=1)],
           "thorough": [dict(what="saver", K=4, pre=2, to=1), dict(what="saver", K=3, pre=3, to=1), dict(what="joiner", K=5, pre=2, to=1),
-                       dict(what="joiner", K=4, pre=2, to=1, sil0=True), dict(what="regions", K=5, pre=2, to=1), dict(what="saver+joiner", K=2, pre=2, to=1),
+                       dict(what="joiner", K=4, pre=2, to=1, sil0=True), dict(what="regions", K=5, pre=2, to=1), dict(what="saver+joiner", K=2, pre=1, to=1),
                        dict(what="saver-late", K=3, pre=2, to=1), dict(what="saver-overlap", K=4, pre=2, to=1)]}
 TEMPLATE = "det_{id}_{start:.3f}_{end}_{duration:.4f}.wav"      # `{end}` bare: the float as it is (0.30000000000000004)
 SIL_Q = 4   # silence duration in quarter samples
